@@ -283,3 +283,54 @@ def c01_ledger_check_switch(ctx, v):
         return v.undecided("wind_chain never reached Block::validate")
     v.covers_total += 1
     v.covers_sat += 1
+
+
+def c01_tx_signature_gate(ctx, v):
+    """Transaction::validate for every user-originated type (Normal, GoldenTicket, Vip, Bound —
+    i.e. every type except the block-generated Fee / ATR / Issuance and the SPV / BlockStake forms
+    that return earlier), 1 input x 1..=2 outputs: it answers true only if verify_signature was
+    asked about exactly (hash_for_signature, signature, from[0].public_key) and said yes — the
+    signature of the key that owns the first input authorises the spend, for every one of those
+    types."""
+    from . import obl_c02
+    val = ctx.body(r"transaction::<impl at [^>]*>::validate$")
+    ok = 0
+    for nout in (1, 2):
+        ex = ctx.executor(loop_bound=5, inline="auto", max_paths=6000, no_inline=[r"verify_signature$", r"validate_routing_path$", r"fmt", r"to_hex", r"to_base58"])
+        ex.pure = [r".*"]
+        L.install_slip_key_model(ctx, ex)
+        tx, ins, outs_, ttype, pre = obl_c02._tx(ctx, ex, 1, nout)
+        sig = ex.fresh_value("[u8; 64]", "tx.signature")
+        tx.fields[ctx.field_index("Transaction", "signature")] = sig
+        user = z3.Or(*[L.enum_is(ctx, ttype, "TransactionType", t) for t in ("Normal", "GoldenTicket", "Vip", "Bound")])
+        st = S.State()
+        st.pc.extend(pre + [user])
+        outs = ex.run(val, [S.Ref(S.Cell(tx)), S.Ref(S.Cell(S.Opaque("utxoset", "AHashMap"))), S.Ref(S.Cell(S.Opaque("blockchain", "Blockchain"))), z3.BoolVal(True)], st)
+        v.paths += len(outs)
+        hfs = tx.fields[ctx.field_index("Transaction", "hash_for_signature")].payload["Some"].fields[0]
+        owner = L.slip_field(ctx, ins[0], "public_key")
+        for o in outs:
+            if o.kind in ("unsupported", "unwound", "path-limit"):
+                return v.undecided("%s %s" % (o.kind, o.info))
+            if o.kind != "return" or not z3.is_bool(o.value):
+                continue
+            calls = [e for e in o.events if e[0] == "call" and re.search(r"verify_signature$", e[1])]
+            good = []
+            for c in calls:
+                a = [ex.deref_value(x) if isinstance(x, S.Ref) else x for x in c[2]]
+                if len(a) == 3 and all(isinstance(x, S.Bytes) for x in a):
+                    same = z3.And(value_eq(ex, a[0], hfs), value_eq(ex, a[1], sig), value_eq(ex, a[2], owner))
+                    verdict = c[3] if z3.is_bool(c[3]) else (c[3].bv != 0)
+                    good.append(z3.And(same, verdict))
+            authorised = z3.Or(*good) if good else z3.BoolVal(False)
+            r, m = ex.model_for(o.pc, z3.And(o.value, z3.Not(authorised)))
+            v.queries += 1
+            if r == z3.sat:
+                tname = [nm for nm, d in ctx.enums["TransactionType"] if d == m.eval(ttype.discr.bv, model_completion=True).as_long()]
+                v.fail("Transaction::validate accepts a %s transaction without a valid signature of the key owning its first input over its hash" % (tname[0] if tname else "?"))
+            elif r == z3.unsat:
+                ok += 1
+            else:
+                return v.undecided("solver: no verdict")
+    v.covers_total += 1
+    v.covers_sat += 1 if ok else 0
